@@ -19,7 +19,7 @@ from .. import refmodel as R
 PID = 'C07'
 RULE = ('cases = (constructor via dr|dk, length 1..4097 incl. primes/odd/powers of two, spacing log-uniform 1e-3..2 or '
         'one of 0.1,0.3,0.7,1/3,0.07, setter history of 0..6 assignments to dr/dk/length, array kind rand|smooth|spike, '
-        'MatrixArray rank 1..4); non-trivial = the history ended in a usable domain and all invariant + transform '
+        'MatrixArray rank 1..4 with C / Fortran / pair-wise assembled / sliced data layouts); non-trivial = the history ended in a usable domain and all invariant + transform '
         'oracles were evaluated; distinct = distinct (ctor,length,spacing,history,array kind,rank) digests')
 ASSUMPTIONS = ['numpy FFT / dense sine matrices are a correct reference for DST-II/III',
                'IEEE double arithmetic; tolerances are multiples of machine epsilon scaled by L log L']
@@ -237,7 +237,17 @@ def run_case(ctx, case):
         data = data + np.transpose(data, (0, 2, 1))
         for space, fwd, bwd, one in ((Space.Real, d.MatrixArray_to_fourier, d.MatrixArray_to_real, d.to_fourier),
                                      (Space.Fourier, d.MatrixArray_to_real, d.MatrixArray_to_fourier, d.to_real)):
-            m = MatrixArray(length=L, rank=rank, data=np.array(data), space=space, types=types)
+            layout = ['c', 'fortran', 'transposed_build', 'slice_of_larger'][case['aseed'] % 4]
+            if layout == 'c':
+                arr = np.array(data)
+            elif layout == 'fortran':
+                arr = np.array(data, order='F')          # a copy (asfortranarray may alias for rank 1)
+            elif layout == 'transposed_build':
+                arr = np.array([[data[:, i, j] for j in range(rank)] for i in range(rank)]).T       # caller assembled pair by pair
+            else:
+                arr = np.concatenate([data, data], axis=2)[:, :, :rank]
+            m = MatrixArray(length=L, rank=rank, data=arr, space=space, types=types)
+            ctx.count('matrixarray_layout', layout)
             fwd(m)
             ctx.hook('matrixarray')
             other = Space.Fourier if space == Space.Real else Space.Real
